@@ -159,12 +159,17 @@ pub struct Segment {
     /// Fine-grained mode: some agent is parked in the middle of a critical section (it holds the global
     /// lock), so `snap` could not be taken (it is the last snapshot that could).
     pub mid_cs: bool,
+    /// ... and which agent at which `InCs` site.
+    pub mid: Option<(Aid, u32)>,
 }
 
 impl Segment {
     /// The trace lines of this segment (spec §4).
     pub fn lines(&self, backend: Backend) -> Vec<TraceLine> {
-        let mut v = Vec::with_capacity(self.steps.len() * 2 + 3);
+        let mut v = Vec::with_capacity(self.steps.len() * 2 + 4);
+        if let Some((a, site)) = self.mid {
+            v.push(TraceLine::M(format!("{} {}", a, site)));
+        }
         for (l, o) in &self.steps {
             v.push(TraceLine::L(l.text()));
             v.push(TraceLine::O(o.text()));
@@ -425,6 +430,10 @@ impl Executor {
                 .collect(),
             table: self.run.table.lock().unwrap().keys().copied().collect(),
             mid_cs,
+            mid: self.agents.iter().find_map(|a| match a.state {
+                AState::Parked(Site::InCs(id)) if a.alive() => Some((a.aid, id)),
+                _ => None,
+            }),
         };
         let hits = self.monitors.observe(&seg);
         self.violations.extend(hits);
